@@ -13,7 +13,9 @@ class C13(PropertyCheck):
             "and subdirectories, localized and not, "
             "interleaved with writes and create_dir, on 1-4 real temp-directory layers with nested and empty directories, the same path in "
             "several layers, hidden names, DIRECTORY and FILE names with glob metacharacters (a[b], q?, st*r, [!a], c{d}, a], b[1].txt, {x}.txt, *.txt, ?.bin), listings of the root, of files and of missing directories; every "
-            "listed path is put to the filesystem's own exists.  Non-trivial = a listing call returned at least one entry; distinct = distinct case line.")
+            "listed path is put to the filesystem's own exists; stream letter-case (seeded change C13-6: glob's derived Default is case-INsensitive): trees whose "
+            "names come in case variants (notes.txt / NOTES.TXT / Notes.Txt, map.bin / Map.BIN, Subdir / subdir / SUBDIR) listed with '*.<ext>', '**/*.<ext>', "
+            "'<name>/*' whose letters come in every case.  Non-trivial = a listing call returned at least one entry; distinct = distinct case line.")
     assumptions = ["A-fs: glob 0.3 with default MatchOptions on the pattern family above with glob-literal arguments (the caller's pattern is interpreted by glob: an <ext> / <name> "
                    "containing * ? [ or '/' - and, excluded for safety, ] { } \\ - is outside the model, fs_list answers EUnmodelled there) ('*' also matches names with a leading dot, '**/' matches "
                    "zero or more directories, directories are results like files), std::fs, Path::join and normpath::normalize behave like the tree "
@@ -25,7 +27,8 @@ class C13(PropertyCheck):
 
     def generate(self, rng, tier):
         n = 3000 if tier == "quick" else 15000
-        return fsgen.exhaustive_cases(tier) + fsgen.gen_cases(rng, tier, "c13", n, "listing-histories")
+        return (fsgen.exhaustive_cases(tier) + fsgen.gen_cases(rng, tier, "c13", n, "listing-histories")
+                + fsgen.case_variant_cases(rng, tier))
 
     def nontrivial(self, case, impl_out):
         return fsgen.nontrivial(case, impl_out, ("L", "S"))
